@@ -126,7 +126,9 @@ private:
 	asio::ip::udp::endpoint m_udp_associate_ep;
 	asio::ip::udp::endpoint m_udp_from;
 
-	std::array<char, 1500> m_udp_buffer;
+	// large enough for any UDP datagram: a datagram larger than the receive
+	// buffer is cut down to it, and the relay would forward the rest
+	std::array<char, 65536> m_udp_buffer;
 
 	// receive buffer for data going out, i.e. client -> proxy (us) -> server
 	char m_out_buffer[65536];
